@@ -404,6 +404,28 @@ def r5(ctx: Ctx, mp: FuncInfo, ps: FuncInfo) -> None:
     }
     for what, pred in arms.items():
         ctx.check(has_raise(pred), 'C17.R5', mp, f'rejects:{what}', f'{what}: raises', f'{what} is no longer rejected', loop)
+    # the order of a section's properties carries no meaning: whether a `key: value` line is accepted never depends on which other properties
+    # of the section have been read so far
+    for r_, g_ in raises:
+        ks = [t[8:-1] for t, tr in g_.items() if tr is True and t.startswith("key == '")]
+        if not ks:
+            continue
+        others = []
+        for atom, _truth in pfl.cfg.guard_atoms(r_):
+            if any(isinstance(n_, ast.Name) and n_.id == 'current_rule' for n_ in ast.walk(atom)):
+                cs = [n_.value for n_ in ast.walk(atom) if isinstance(n_, ast.Constant) and isinstance(n_.value, str)]
+                others += [c_ for c_ in cs if c_ not in (ks[0], 'let_bindings', 'fields', 'match_expr' if ks[0] == 'match' else ks[0])]
+        ctx.check(not others, 'C17.R5', mp, f'order-free:{ks[0]}', f'`{ks[0]}:` is accepted or rejected on its own',
+                  f'a `{ks[0]}:` line is rejected depending on whether {sorted(set(others))} has been read already: the same section loads with its properties in one order and is '
+                  f'rejected in another', r_)
+    # … and a section is never rejected because of *other* sections (a name already used, a limit on their number)
+    araises = [r_ for r_ in afl.cfg.stmts() if isinstance(r_, ast.Raise)]
+    for k_, r_ in enumerate(araises):
+        dep = any(isinstance(n_, ast.Attribute) and src(n_) == 'self.rules' for atom, _t in afl.cfg.guard_atoms(r_) for n_ in ast.walk(atom)) or \
+            any(isinstance(a_, (ast.For, ast.While)) and 'self.rules' in src(a_.iter if isinstance(a_, ast.For) else a_.test) for a_ in ancestors(r_))
+        ctx.check(not dep, 'C17.R5', add, f'own-section-only:raise#{k_ + 1}', 'a section is judged by its own properties',
+                  f'{src(r_)[:60]!r} rejects a section because of the sections read before it (e.g. a name used twice): every section must yield its rule, '
+                  f'and two suggestions of `tally discover` that share a merchant name make the whole file unloadable', r_)
     # each known key stores into the like-named slot (directly, or through a constant key -> slot table)
     from ._tables import table_of
     mapping = {}
